@@ -431,8 +431,23 @@ def abstract_nonlinear(asserts):
     return [rb(a) for a in asserts]
 
 
+def _has_var(e):
+    seen, stack = set(), [e]
+    while stack:
+        t = stack.pop()
+        if t.get_id() in seen:
+            continue
+        seen.add(t.get_id())
+        if z3.is_var(t):
+            return True
+        if z3.is_app(t):
+            stack.extend(t.children())
+    return False
+
+
 def apps_of(decl, exprs):
-    """All applications of an uninterpreted function in exprs (deduplicated)."""
+    """All GROUND applications of an uninterpreted function in exprs (deduplicated; applications that mention a
+    quantifier-bound variable are not ground instances and are skipped)."""
     seen, out, stack = set(), {}, list(exprs)
     while stack:
         e = stack.pop()
@@ -443,7 +458,7 @@ def apps_of(decl, exprs):
             stack.append(e.body())
             continue
         if z3.is_app(e):
-            if e.decl().eq(decl):
+            if e.decl().eq(decl) and not _has_var(e):
                 out[e.get_id()] = e
             stack.extend(e.children())
     return list(out.values())
